@@ -89,6 +89,11 @@ pub fn dress(scn: &mut Scenario, rng: &mut Rng, consistent_chain: bool) {
             name: "README".into(),
             bytes: Bytes(b"unrelated".to_vec()),
         });
+        for name in [".lock", ".pid", ".csvdump.lock", ".unspentcsvdump.lock", ".balances.lock"] {
+            if rng.coin() {
+                scn.dump_pre.push(PreFile { name: name.into(), bytes: Bytes(b"1\n".to_vec()) });
+            }
+        }
     }
     if rng.chance(1, 4) {
         let step = *rng.pick(&[900u64, 4000, 11_000, 86_400_000]);
@@ -119,6 +124,12 @@ pub fn dress(scn: &mut Scenario, rng: &mut Rng, consistent_chain: bool) {
     if scn.coin == "bitcoin" && rng.chance(1, 4) {
         for r in scn.runs.iter_mut() {
             r.omit_coin = true;
+        }
+    }
+    if rng.chance(1, 6) {
+        let st = rng.range(1, 2) as u8;
+        for r in scn.runs.iter_mut() {
+            r.height_style = st;
         }
     }
     if rng.chance(1, 5) {
